@@ -124,6 +124,31 @@ func opPut(g *G) bool {
 			break
 		}
 	}
+	if g.R.Chance(1, 5) {
+		// a second, different batch of the same owner in the same message (admissible if there is one)
+		var cand, adm []holding
+		for _, o := range g.otherHoldings(hs, h) {
+			cand = append(cand, o)
+			if monitor.PutAdmissible(v, b, o.Batch) {
+				adm = append(adm, o)
+			}
+		}
+		if len(adm) > 0 && !(g.bad() && g.R.Chance(1, 3)) {
+			cand = adm
+		}
+		if len(cand) > 0 {
+			o := cand[g.R.Intn(len(cand))]
+			a2, _ := g.amount(o.T)
+			extra := chain.BasketCredit(o.Batch.Denom, a2)
+			if g.R.Bool() {
+				credits = append(credits, extra)
+			} else {
+				credits = append([]*basket.BasketCredit{extra}, credits...)
+			}
+			note += ", two different batches in one message"
+			g.bump("multi:put-different-batches")
+		}
+	}
 	g.Do(g.App.MsgBasketPut(h.Acct, b.Denom, credits...), note)
 	return true
 }
@@ -355,15 +380,29 @@ func opSell(g *G) bool {
 	var orders []*market.MsgSell_Order
 	note := "sell"
 	saved := g.badPct
+	// several orders in one message: all for one batch, or (half of the time) spread over the
+	// different batches the seller holds, in an order unrelated to the batch keys
+	others := g.otherHoldings(hs, h)
+	spread := n > 1 && len(others) > 0 && g.R.Bool()
+	distinct := map[string]bool{}
 	for i := 0; i < n; i++ {
-		q, k := g.amount(part)
+		hi, pi := h, part
+		if spread && i > 0 {
+			hi = others[g.R.Intn(len(others))]
+			pi = new(big.Rat).Quo(hi.T, big.NewRat(int64(n), 1))
+		}
+		q, k := g.amount(pi)
 		g.bump("amount:" + k)
-		orders = append(orders, chain.SellOrder(h.Batch.Denom, q, bigCoin(g.askDenom(v), g.askAmount()), g.R.Bool(), g.expiration()))
+		orders = append(orders, chain.SellOrder(hi.Batch.Denom, q, bigCoin(g.askDenom(v), g.askAmount()), g.R.Bool(), g.expiration()))
+		distinct[hi.Batch.Denom] = true
 		note += " " + k
 		g.badPct = 0 // at most one deliberately invalid order per message
 	}
 	g.badPct = saved
-	if n > 1 {
+	if len(distinct) > 1 {
+		g.bump("multi:sell-orders-different-batches")
+		note += fmt.Sprintf(" — %d different batches in one message", len(distinct))
+	} else if n > 1 {
 		g.bump("dup:sell-orders-same-batch")
 	}
 	seller := h.Acct
